@@ -1,5 +1,7 @@
 (* C20 - property theorems only. *)
-From HV Require Import Prelude Tracts Tiling C02_Model C02_Check C20_Model C20_Check C20_Proofs C20_Proofs2 C20_Proofs3 C20_Proofs4.
+From HV Require Import Prelude Tracts Tiling C01_Model C02_Model C02_Check C02_Tiling C02_Generations C02_Coords.
+From HV Require Import C20_Model C20_Check C20_Proofs C20_Proofs2 C20_Proofs3 C20_Proofs4.
+From HV Require Import C20_Sim C20_ProofsSim C20_ProofsSim2 C20_ProofsSim3 C20_ProofsSim4 C20_ProofsRefuse.
 From Coq Require Import QArith.
 Open Scope Z_scope.
 
@@ -186,3 +188,151 @@ Theorem C20_checked_refusal_names_violation :
   ~ Valid i -> side_ok_b i = true -> violated i <> [] -> ~ clause (clause_of k) i.
 Proof. exact checked_refusal_names_violation_l. Qed.
 Print Assumptions C20_checked_refusal_names_violation.
+
+(* ---- "Every input meeting all requirements is accepted and then simulated to completion" -------------
+   as a theorem about ONE function of the input, [C20_Sim.simgenotype] = front (validate_params,
+   _prepare_coords) o simulate_gt's generation loop (C01/C02 models) o write_breakpoints, for EVERY
+   stream of draws that numpy may return:
+     [stream_ok]: per simulated generation exactly popsize children; for each child
+        np.random.choice(arange(K), p = fractions) returned an index of positive probability,
+        both np.random.randint(popsize) values lie in [0, popsize), one np.random.randint(2) per
+        chromosome is available; the np.random.rand mask is arbitrary (that an event needs a cM
+        increase and that events are sorted by (chromosome, cM) is part of the model);
+     [idx_ok]: np.random.choice(range(popsize), 2n, replace = False) returned 2n indices below popsize.
+   numpy's own argument checks are in the model (choice(p): length, no negative entry, sum 1 +- 3.45e-4,
+   else ValueError; choice(replace=False): 2n <= population, else ValueError), so "never an exception"
+   includes them.  The rows written are 2n framed haplotypes, each tiling every requested chromosome up to
+   the sentinel with positive-fraction source labels ([BpWellFormed]) - and they pass the very boolean
+   ([bp_ok] = C02's holds_bp) that the check evaluates on the implementation's file. *)
+Theorem C20_accepted_completes :
+  forall i, Valid i ->
+  exists ps n, front false false i = Accept ps /\ nsamples i = Some n /\ 1 <= n /\ 10 * n <= ps /\
+  forall stream idx,
+    stream_ok ps (length (v_chroms i)) (sim_schedule i) stream -> idx_ok n ps idx ->
+    exists rows, simgenotype i stream idx = Ran ps (Ok rows) /\ BpWellFormed i n rows /\ bp_ok i n rows = true.
+Proof. exact accepted_completes_full_l. Qed.
+Print Assumptions C20_accepted_completes.
+
+(* the hypotheses are satisfiable: a Valid input, a stream and an index draw meeting the contracts, the
+   complete run computed (three generations of 20 children, 4 rows written, accepted by the checker) *)
+Example C20_accepted_completes_example :
+  Valid w_valid /\ stream_ok 20 1 (sim_schedule w_valid) w_stream /\ idx_ok 2 20 w_idx /\
+  exists rows, simgenotype w_valid w_stream w_idx = Ran 20 (Ok rows) /\ bp_ok w_valid 2 rows = true /\
+               lenZ rows = 4.
+Proof. exact accepted_completes_example_l. Qed.
+Print Assumptions C20_accepted_completes_example.
+
+(* The requirements that Valid adds to the twelve refusals are what completion needs: each of these four
+   inputs is accepted by the model (as by the code) and is not Valid; with draws that meet numpy's contracts
+   the run then dies (first generation with an admixed share: IndexError; a negative fraction: ValueError
+   from np.random.choice; a region with two chromosomes: IndexError) or returns a file that does not tile
+   (cM going down while bp goes up). *)
+Example C20_accepted_then_failing :
+  map (fun i => (front false false i, valid_b i)) [w_first_admixed; w_negative; w_region_two; w_cm_down]
+    = [(Accept 20, false); (Accept 20, false); (Accept 20, false); (Accept 20, false)] /\
+  stream_ok 20 1 (sim_schedule w_first_admixed) w_stream0 /\
+  simgenotype w_first_admixed w_stream0 w_idx = Ran 20 (Err E_Index) /\
+  simgenotype w_negative w_stream w_idx = Ran 20 (Err C01_Model.E_Value) /\
+  stream_ok 20 2 (sim_schedule w_region_two) w_stream1 /\
+  simgenotype w_region_two w_stream1 w_idx = Ran 20 (Err E_Index) /\
+  stream_ok 20 1 (sim_schedule w_cm_down) w_stream1 /\
+  exists rows, simgenotype w_cm_down w_stream1 w_idx = Ran 20 (Ok rows) /\ bp_ok w_cm_down 2 rows = false.
+Proof. exact accepted_then_failing_l. Qed.
+Print Assumptions C20_accepted_then_failing.
+
+(* C20's model of _prepare_coords (the one compared with the code's refusals) and C02's (the one whose end
+   coordinates the tiling theorems use) are two definitions; on Valid inputs both succeed and agree: C02's
+   result is, chromosome by chromosome, C20's markers ([sim_markers]: all files, or the region's cut of the
+   first) with the last base-pair position replaced by the sentinel *)
+Theorem C20_prepare_coords_agree :
+  forall i, Valid i ->
+  exists coords,
+    coords_of i = inr coords /\
+    C20_Model.prepare_coords false i = None /\
+    map (map mk_pair) (sim_markers i) = cut_coords i coords /\
+    Forall (fun c => c <> []) (sim_markers i) /\
+    length (sim_markers i) = length (req_chroms i) /\
+    C02_Coords.prepare_coords (c02_maps i) (req_chroms i) (v_region i)
+      = Ok (map (fun c => seal (map c02_marker c)) (sim_markers i)).
+Proof. exact prepare_coords_agree. Qed.
+Print Assumptions C20_prepare_coords_agree.
+
+(* the two formulations of the region loop (C20: the code's scan with start_ind / end_ind and a Python
+   slice; C02: first marker >= end, first marker >= start before it) agree on every non-empty map,
+   sorted or not, for every start and end *)
+Theorem C20_region_scan_is_slice :
+  forall ms s e, ms <> [] ->
+  region_slice s e (map c02_marker ms) = Ok (map c02_marker (cut3 ms s e)) /\
+  map mk_pair (cut3 ms s e) = region_cut (map mk_pair ms) s e.
+Proof. exact region_scan_is_slice_l. Qed.
+Print Assumptions C20_region_scan_is_slice.
+
+(* why the chromosome list has to be sorted and every chromosome needs exactly one map: the files sorted by
+   chromosome number then line up with the requested chromosomes, position by position, and the k-th marker
+   list handed to _simulate belongs to the k-th requested chromosome *)
+Theorem C20_sorted_files_align :
+  forall i, Valid i ->
+  map file_key (sort_by file_key (matching i)) = req_chroms i /\
+  Forall2 mks_ok (req_chroms i) (sim_markers i).
+Proof. exact sorted_files_align_l. Qed.
+Print Assumptions C20_sorted_files_align.
+
+(* whatever markers the random mask selects on a Valid input, the events handed to the per-child loop are on
+   requested chromosomes in chromosome order, strictly increasing in bp within a chromosome, non-negative
+   and below the sentinel (C02's evs_ok) - C02 takes this as a hypothesis about the draws, here it follows
+   from the maps *)
+Theorem C20_valid_events_ordered :
+  forall i, Valid i -> forall masks, evs_ok (req_chroms i) 0 (-1) (events_of (sim_markers i) masks).
+Proof. exact valid_events_ok. Qed.
+Print Assumptions C20_valid_events_ordered.
+
+(* the decision-only relation (sample counts / population sizes around 2^31, 2^63, 10^30: simulating is
+   infeasible, validate_params and _prepare_coords alone are run): what its boolean means *)
+Theorem C20_holds_decision_sound :
+  forall i o, holds_decision i o = true -> o <> Crash 97 ->
+  (Valid i -> exists ps n, o = Accept ps /\ nsamples i = Some n /\ 10 * n <= ps) /\
+  (~ Valid i -> side_ok_b i = true -> violated i <> [] ->
+   exists k, o = Reject k /\ (k = 0 \/ In (clause_of k) (violated i))).
+Proof. exact holds_decision_sound_l. Qed.
+Print Assumptions C20_holds_decision_sound.
+
+(* ---- the model satisfies what the checker demands of the implementation ---------------------------------
+   With nothing odd beyond the documented list (side_ok_b) the up-front decision of the model never ends in a
+   non-explanatory exception: it accepts, or refuses with a message whose requirement one of the checker's
+   NARROW classifiers v1 .. v12 flags - for any number of simultaneous violations. *)
+Theorem C20_model_refuses_documented :
+  forall i, side_ok_b i = true ->
+  (exists ps, front false false i = Accept ps) \/
+  (exists k, front false false i = Reject k /\ In (clause_of k) (violated i)).
+Proof. exact model_refuses_documented_l. Qed.
+Print Assumptions C20_model_refuses_documented.
+
+(* an input flagged by a narrow classifier (one requirement or several at once) and otherwise in order is
+   refused, naming one of the flagged requirements *)
+Theorem C20_documented_violation_refused :
+  forall i, side_ok_b i = true -> violated i <> [] ->
+  exists k, front false false i = Reject k /\ In (clause_of k) (violated i).
+Proof. exact documented_violation_refused_l. Qed.
+Print Assumptions C20_documented_violation_refused.
+
+(* hence agree => holds on every input that is not Valid: the model's outcome passes the checker *)
+Theorem C20_model_passes_refusal_check :
+  forall i s, ~ Valid i -> holds_outcome i (front false false i) s = true.
+Proof. exact model_passes_refusal_check_l. Qed.
+Print Assumptions C20_model_passes_refusal_check.
+
+(* and on every Valid input the composed model's run passes the checker's Valid half (acceptance, population
+   sizes, completion, the file), for every stream of draws meeting numpy's contracts *)
+Theorem C20_model_passes_valid_check :
+  forall i, Valid i ->
+  exists ps n, front false false i = Accept ps /\ nsamples i = Some n /\
+  forall stream idx,
+    stream_ok ps (length (v_chroms i)) (sim_schedule i) stream -> idx_ok n ps idx ->
+    exists rows, simgenotype i stream idx = Ran ps (Ok rows) /\
+                 holds_outcome i (Accept ps) (Completed ps rows) = true.
+Proof. exact model_passes_valid_check_l. Qed.
+Print Assumptions C20_model_passes_valid_check.
+
+Theorem C20_model_passes_decision_check : forall i, holds_decision i (front false false i) = true.
+Proof. exact model_passes_decision_check_l. Qed.
+Print Assumptions C20_model_passes_decision_check.
